@@ -26,5 +26,9 @@ def check(ctx):
     # keep-first and shape grouping compare (later, earlier): the outcome is independent of entry order only if the shape
     # comparator is symmetric - every field and every list length compared on both operands in mirrored positions
     from . import c03
-    with ctx.only(lambda k: k.startswith("comparator-coverage/") or k.startswith("comparator-length/") or k.startswith("comparator-arm/")):
-        c03.comparator(ctx, "C17.5")
+    with ctx.only(lambda k: k.startswith("comparator-coverage/") or k.startswith("comparator-length/") or k.startswith("comparator-arm/") or k.startswith("ground/")):
+        c03.comparator(ctx, "C17.5")       # incl. the ways of answering `equal` without comparing: a one-sided visited set makes equal(a, b) != equal(b, a)
+    # recursive derives: what a type receives must not depend on which roots were visited before it (entry order): the reachable set is per root
+    from . import c08
+    with ctx.only(lambda k: k in ("flatten/reachable-set", "flatten/per-entry")):
+        c08.flatten(ctx)
